@@ -850,14 +850,10 @@ class HexaryTrie:
             # The batch was committed: adopt its reference counts
             self._ref_count = memory_trie._ref_count
 
-        if self.root_hash != memory_trie.root_hash:
-            try:
-                raw_root_node = memory_trie.get_node(memory_trie.root_hash)
-            except KeyError:
-                # if the new root node is missing, then we shouldn't crash here
-                self.root_hash = memory_trie.root_hash
-            else:
-                self.root_hash = self._set_raw_node(raw_root_node)
+        # The batch trie has already written (and, when pruning, counted) its root
+        # node, and the commit has copied it into self.db. Storing it once more
+        # would count the root twice and leave it behind as garbage later.
+        self.root_hash = memory_trie.root_hash
 
     @contextlib.contextmanager
     def at_root(self, at_root_hash):
